@@ -376,3 +376,17 @@ Definition undo_redo_ok (tt : typetable) (tr : trace tt) : bool :=
       | Ok s1 => state_matches tt s1 (tr_final tr)
       end
   end.
+
+(* 128: the engine's undo list, replayed by the model on the final tables, does not give the start tables;
+   256: the engine's stored list, replayed on the undone tables (on the start tables when the undo replay is not
+   defined), does not give the final tables *)
+Definition undo_redo_code (tt : typetable) (tr : trace tt) : Z :=
+  let redo_from s0 :=
+    match replay_doc _ (tr_stored tr) s0 with
+    | Err _ => 256
+    | Ok s1 => if state_matches tt s1 (tr_final tr) then 0 else 256
+    end in
+  match replay_doc _ (rev (tr_undo tr)) (state_of_snapshot tt (tr_final tr)) with
+  | Err _ => 128 + redo_from (state_of_snapshot tt (tr_start tr))
+  | Ok s0 => (if state_matches tt s0 (tr_start tr) then 0 else 128) + redo_from s0
+  end.
